@@ -4,6 +4,7 @@ import FastorModel.Driver.Expr
 import FastorModel.Driver.Lazy
 import FastorModel.Driver.Config
 import FastorModel.Driver.Simd
+import FastorModel.Driver.SimdGen
 import FastorModel.Driver.Footprint
 import FastorModel.Driver.ViewWrite
 import FastorModel.Driver.Linalg
@@ -34,6 +35,7 @@ def step (line : String) : String :=
   | "lazy" :: rest => runLazy (parseKV rest)
   | "config" :: rest => runConfig (parseKV rest)
   | "intrin" :: rest => runIntrin (parseKV rest)
+  | "gen" :: rest => runGen (parseKV rest)
   | "pfoot" :: rest => runPfoot (parseKV rest)
   | "bounds" :: rest => runBounds (parseKV rest)
   | "memidx" :: rest => runMemidx (parseKV rest)
